@@ -16,6 +16,19 @@ def run_harness(spec, repo):
     """spec: dict(gen=<script under /verif>, crate=<dir name>, harness=<name>, claim=<text>). Returns a result dict."""
     t0 = time.time()
     out = os.path.join(BUILD, spec["crate"] + "-" + hashlib.sha1(repo.encode()).hexdigest()[:8])
+    # two properties share this harness: checks running side by side must not generate / build the same crate directory at once
+    import fcntl
+    os.makedirs(BUILD, exist_ok=True)
+    lock = open(out + ".lock", "w")
+    fcntl.flock(lock, fcntl.LOCK_EX)
+    try:
+        return _run_harness_locked(spec, repo, out, t0)
+    finally:
+        fcntl.flock(lock, fcntl.LOCK_UN)
+        lock.close()
+
+
+def _run_harness_locked(spec, repo, out, t0):
     g = subprocess.run([sys.executable, os.path.join(VERIF, spec["gen"]), repo, out], capture_output=True, text=True)
     if g.returncode != 0:
         return dict(spec, status="undecided", detail="extraction failed: " + (g.stderr or g.stdout)[-400:], wall_s=time.time() - t0)
